@@ -436,6 +436,13 @@ theorem mapBangEv_effPres (all : Bool) : EffPres (mapBangEv all) := by
     | ev e => cases e <;> first | exact ⟨rfl, rfl⟩ | (cases all <;> exact ⟨rfl, rfl⟩)
     | _ => exact ⟨rfl, rfl⟩
 
+theorem mapTextEv_effPres (f : Str → Bool → Str × Bool) : EffPres (mapTextEv f) := by
+  rintro ⟨_ | m, x⟩
+  · exact ⟨rfl, rfl⟩
+  · cases x with
+    | ev e => cases e <;> exact ⟨rfl, rfl⟩
+    | _ => exact ⟨rfl, rfl⟩
+
 theorem substEv_effPres (pat rep : Str) (count : Nat) : EffPres (substEv pat rep count) := by
   rintro ⟨_ | m, x⟩
   · exact ⟨rfl, rfl⟩
